@@ -296,7 +296,7 @@ class C14(Prop):
 
     # ------------------------------------------------------------------ generation
     def gen_pair(self, rng, n):
-        style = rng.choice(["indep", "corr", "anti", "tiles", "ties", "smallrange"])
+        style = rng.choice(["indep", "corr", "anti", "tiles", "ties", "ties2", "smallrange"])
         if style == "indep":
             x = [rng.randint(0, 60) for _ in range(n)]
             y = [rng.randint(0, 60) for _ in range(n)]
@@ -313,6 +313,14 @@ class C14(Prop):
             x = ([10 + v for v in half] + [10 - v for v in half] + [10] * n)[:n]
             y = [rng.choice([4, 5, 6]) for _ in range(n)]
             rng.shuffle(x)
+        elif style == "ties2":  # both means are pixel values: deviations exactly zero in x, in y, in both at once, and a zero
+            # deviation paired with either sign of the other ("do not have opposite signs" counts all of them)
+            def sym(c):
+                half = [rng.randint(1, 4) for _ in range(max(1, n // 3))]
+                v = ([c + h for h in half] + [c - h for h in half] + [c] * n)[:n]
+                rng.shuffle(v)
+                return v
+            x, y = sym(10), sym(7)
         else:
             x = [rng.randint(0, 2) for _ in range(n)]
             y = [rng.randint(0, 2) for _ in range(n)]
@@ -829,8 +837,14 @@ class C14(Prop):
                     ok = ok and all(-1e-12 <= impl[k] <= 1 + 1e-12 for k in ("m1", "m2"))
             return ok
 
-        if sum(xq) / len(xq) in xq or sum(yq) / len(yq) in yq:
+        mxq, myq = sum(xq) / len(xq), sum(yq) / len(yq)
+        if mxq in xq or myq in yq:
             feats.add("deviation-exactly-zero")
+            zz = {(u == mxq, v == myq) for u, v in zip(xq, yq)}
+            if (True, True) in zz:
+                feats.add("deviation-exactly-zero:both-at-one-pixel")
+            if (True, False) in zz and (False, True) in zz:
+                feats.add("deviation-exactly-zero:in-each-image")
         if case["tx"] is not None or case["ty"] is not None:
             feats.add("explicit-threshold")
         if (tyq is not None and tyq in yq) or (txq is not None and txq in xq):
